@@ -112,6 +112,17 @@ async fn worker_rpc_loop(
     connection: ConnectionDescriptor,
     msg: RegisterWorker,
 ) -> crate::Result<()> {
+    let heartbeat_interval = msg.configuration.heartbeat_interval;
+
+    // Sanity that interval is not too small
+    if heartbeat_interval.as_millis() <= 150 {
+        return Err(format!(
+            "Worker from {} refused, its heartbeat interval {heartbeat_interval:?} is too small",
+            connection.address
+        )
+        .into());
+    }
+
     let worker_id = core_ref.get_mut().new_worker_id();
     log::info!(
         "Worker {} registered from {}",
@@ -119,12 +130,7 @@ async fn worker_rpc_loop(
         connection.address
     );
 
-    let heartbeat_interval = msg.configuration.heartbeat_interval;
-
     log::debug!("Worker heartbeat interval: {heartbeat_interval:?}");
-
-    // Sanity that interval is not too small
-    assert!(heartbeat_interval.as_millis() > 150);
 
     let mut configuration = msg.configuration;
     sync_worker_configuration(&mut configuration, *core_ref.get().idle_timeout());
